@@ -37,10 +37,10 @@ pub mod rpc {
         /// returned -- with any result -- it creates no further parts (assumption, listed).
         fn pay(&self, request: &PayRequest, Tracked(w): Tracked<&mut World>) -> (r: ::std::result::Result<PayResponse, RpcError>)
             requires
-                !old(w).lock_held,                                            // #no_rpc_under_lock [C14]
-                store_of(*old(w)) is Pending,                                 // #write_ahead [C08]
-                !live(*old(w)) && !old(w).pay_running,                        // #nothing_live [C05]
-                request.bolt11@ == old(w).bolt11,                             // #pays_the_invoice_of_the_hash [C01,C03]
+                !old(w).lock_held,                                            // #no_rpc_under_lock [C14,C06]
+                store_of(*old(w)) is Pending,                                 // #write_ahead [C08,C05]
+                !live(*old(w)) && !old(w).pay_running,                        // #nothing_live [C05,C08]
+                request.bolt11@ == old(w).bolt11,                             // #pays_the_invoice_of_the_hash [C01,C03,C10,C05]
                 request.maxfee is Some && request.maxfee->0.msat as int <= old(w).received_read - old(w).amount,   // #fee_budget_is_maxfee [C03]
                 request.maxfeepercent is None && request.exemptfee is None,   // #no_other_fee_knob [C03]
                 (request.amount_msat is None) == (old(w).inv_amount is Some), // #amount_only_for_amountless_invoices [C03,C10]
